@@ -27,6 +27,7 @@ type guardInfo struct {
 }
 
 type Engine struct {
+	curView string // proof view for the next verifyFunc call
 	excuses map[string]string // open known findings: obligation name -> pre-state predicate describing the recorded failing inputs
 	repo     string
 	verif    string
